@@ -20,7 +20,7 @@ def history_case(rng):
     st = w.new_stack()
     aac = rng.random() < 0.5
     name = j.Name(arbitrary_address_capable=aac, identity_number=rng.randrange(5, 1000), manufacturer_code=rng.randrange(2048))
-    pref = rng.choice([128, 200, 10, 250])
+    pref = rng.choice([128, 200, 10, 250, 0, 0])          # 0 is a valid address
     bypass = rng.random() < 0.15
     ca = j.ControllerApplication(name, pref, bypass)
     st.ecu.add_ca(controller_application=ca)
@@ -55,6 +55,14 @@ def history_case(rng):
     own_claims = [(fr[0], fr[1] & 0xFF) for fr in st.sent if (fr[1] >> 8) & 0x3FFFF == 0xEEFF]
     if lost_at and held == lost_at[1] and not [1 for (t, a) in own_claims if t > lost_at[0] and a == held]:
         bad.append(f"CA still operational at {held} after a lower NAME claimed that address at t={lost_at[0]} (no new claim of its own since)")
+    # independent of the library's state: the only address the CA may use is the one of its LAST own claim frame (the
+    # preferred one when the claim procedure is bypassed), unless a lower NAME has claimed it since
+    if own_claims:
+        entitled = own_claims[-1][1]
+        if entitled == 254 or (lost_at and lost_at[1] == entitled and lost_at[0] >= own_claims[-1][0]):
+            entitled = None
+    else:
+        entitled = pref if bypass else None
     st.sent.clear()
     dm1 = j.Dm1(ca)
     dm22 = j.Dm22(ca)
@@ -74,6 +82,9 @@ def history_case(rng):
         except RuntimeError:
             raised = True
         frames = [(fr[1], fr[3]) for fr in st.sent]
+        if not raised and nm != 'send_request-claim' and any((c & 0xFF) != entitled for c, d in frames):
+            bad.append(f"{nm} put frames on the bus from {sorted({c & 0xFF for c, d in frames})} although the only address this CA has "
+                       f"announced and not lost is {entitled} (library state {ca.state}, device_address {ca.device_address})")
         if held is None:
             if nm == 'send_request-claim':
                 if raised or [c & 0xFF for c, d in frames] != [254]:
